@@ -165,8 +165,39 @@ def dsOp (req : Json) : R Reply := do
     let keys ← asList asKey (← field obs "reach")
     return { model := Json.mkObj [("fails", listJ keyJ (dsFailures d keys))], holds := holdsDs d keys }
 
+def asBuckets : Json → R (List (SSet × List Nat)) := asList (asPair (asList asStr) (asList asNat))
+def bucketsJ (l : List (SSet × List Nat)) : Json := listJ (pairJ strsJ (listJ natJ)) l
+
+/-- op "merge": `kernFeatureWriter.mergeScripts` -/
+def mergeOp (req : Json) : R Reply := do
+  let kps ← asBuckets (← field req "in")
+  let obs ← field req "obs"
+  let model := match mergeScripts kps with
+    | .error e => Json.mkObj [("err", errJ e)]
+    | .ok r => Json.mkObj [("err", Json.null), ("buckets", bucketsJ r)]
+  match ← asOpt asStr (← field obs "err") with
+  | some e => return { model, holds := e == "AssertionError" && kps.any (fun k => k.1.isEmpty) }
+  | none =>
+    let b ← asBuckets (← field obs "buckets")
+    return { model, holds := holdsMerge kps b }
+
+/-- op "xkern": predicate only (compiled ScriptList against the converse direction, cross-script kerning pairs) -/
+def xkernOp (req : Json) : R Reply := do
+  let i ← field req "in"
+  let d : XIn := { own := ← asSubMap (← field i "own"),
+                   pairs := ← asList (asPair asStr asStr) (← field i "pairs"),
+                   dirs := ← asList (asPair asStr asStr) (← field i "dirs") }
+  let obs ← field req "obs"
+  match ← asOpt asStr (← field obs "err") with
+  | some _ => return { model := Json.mkObj [("fails", Json.arr #[])], holds := false }
+  | none =>
+    let keys ← asList asKey (← field obs "reach")
+    return { model := Json.mkObj [("fails", listJ keyJ (xFailures d keys))], holds := holdsX d keys }
+
 def handle (op : String) (req : Json) : R Reply :=
   match op with
+  | "merge" => mergeOp req
+  | "xkern" => xkernOp req
   | "extrasubs" => extrasubs req
   | "classify" => classify req
   | "ds" => dsOp req
